@@ -137,20 +137,69 @@ theorem lex_comment_nl {rest : List Rune} {ln : Nat} {acc : List Token} :
 
 /-! ### simple double-quoted strings in the lexer -/
 
-theorem lex_dq_content : ∀ (as rest v : List Rune) (l : LexSt) (tl : Nat) (acc : List Token), as.all dqCh = true →
-    lexLoop (as ++ rest) l { val := v, tokLine := tl, quoted := true } acc =
-      lexLoop rest l { val := v ++ as, tokLine := tl, quoted := true } acc
-  | [], _, _, _, _, _, _ => by simp
-  | c :: as, rest, v, l, tl, acc, h => by
-    simp only [List.all_cons, Bool.and_eq_true] at h
-    obtain ⟨h34, h92, h10⟩ := dqCh_spec h.1
-    rw [List.cons_append, lexLoop]
-    have ih := lex_dq_content as rest (v ++ [c]) l tl acc h.2
-    simp [NextSt.heredocStart, rBS, rDQ, rNL, h34, h92, h10]
-    rw [ih]; simp
+/-- the text the lexer keeps of the content of a double-quoted string: `\"` becomes `"`, every
+    other backslash pair stays -/
+def unesc : List Rune → List Rune
+  | [] => []
+  | c :: t =>
+    if c == rBS then
+      (match t with
+       | [] => [rBS]
+       | d :: t' => (if d == rDQ then [d] else [rBS, d]) ++ unesc t')
+    else c :: unesc t
 
-theorem lex_dq {as rest : List Rune} {l : LexSt} {acc : List Token} (h : as.all dqCh = true) :
-    lexLoop (rDQ :: (as ++ rDQ :: rest)) l {} acc = lexLoop rest l {} (acc ++ [⟨l.line, as, rDQ, []⟩]) := by
+theorem unesc_cons_ne (c : Rune) (t : List Rune) (h1 : (c == rBS) = false) : unesc (c :: t) = c :: unesc t := by
+  cases t <;> simp [unesc, h1]
+
+theorem lex_dq_content : ∀ (as rest v : List Rune) (l : LexSt) (tl : Nat) (acc : List Token), dqBody as = true →
+    lexLoop (as ++ rest) l { val := v, tokLine := tl, quoted := true } acc =
+      lexLoop rest l { val := v ++ unesc as, tokLine := tl, quoted := true } acc
+  | [], _, _, _, _, _, _ => by simp [unesc]
+  | [c], rest, v, l, tl, acc, h => by
+    simp only [dqBody] at h
+    split at h
+    · simp at h
+    · rename_i hbs
+      simp only [Bool.and_eq_true, bne_iff_ne, ne_eq, beq_iff_eq] at h hbs
+      have h34 : c ≠ 34 := by simpa [rDQ] using h.1.1
+      have h10 : c ≠ 10 := by simpa [rNL] using h.1.2
+      have h92 : c ≠ 92 := by simpa [rBS] using hbs
+      rw [List.cons_append, List.nil_append, lexLoop]
+      simp [NextSt.heredocStart, rBS, rDQ, rNL, h34, h92, h10, unesc]
+  | c :: d :: t, rest, v, l, tl, acc, h => by
+    simp only [dqBody] at h
+    split at h
+    · rename_i hbs
+      simp only [beq_iff_eq] at hbs
+      subst hbs
+      simp only [Bool.and_eq_true, bne_iff_ne, ne_eq] at h
+      have h10 : d ≠ 10 := by simpa [rNL] using h.1
+      have ih := lex_dq_content t rest (v ++ (if d == rDQ then [d] else [rBS, d])) l tl acc h.2
+      rw [List.cons_append, List.cons_append, lexLoop]
+      simp only [NextSt.heredocStart, rBS, rDQ, rNL]
+      simp
+      rw [lexLoop]
+      by_cases hd : d = 34
+      · subst hd
+        simp [NextSt.heredocStart, rBS, rDQ, rNL, unesc] at ih ⊢
+        rw [ih]
+      · have hd' : (d == rDQ) = false := by simp [rDQ, hd]
+        simp [NextSt.heredocStart, rBS, rDQ, rNL, unesc, hd, h10] at ih ⊢
+        rw [ih]
+    · rename_i hbs
+      simp only [Bool.and_eq_true, bne_iff_ne, ne_eq, beq_iff_eq] at h hbs
+      have h34 : c ≠ 34 := by simpa [rDQ] using h.1.1
+      have h10 : c ≠ 10 := by simpa [rNL] using h.1.2
+      have h92 : c ≠ 92 := by simpa [rBS] using hbs
+      have ih := lex_dq_content (d :: t) rest (v ++ [c]) l tl acc h.2
+      rw [List.cons_append] at ih
+      rw [List.cons_append, lexLoop]
+      simp [NextSt.heredocStart, rBS, rDQ, rNL, h34, h92, h10]
+      rw [ih, unesc_cons_ne c (d :: t) (by simp [rBS, h92])]
+      simp
+
+theorem lex_dq {as rest : List Rune} {l : LexSt} {acc : List Token} (h : dqBody as = true) :
+    lexLoop (rDQ :: (as ++ rDQ :: rest)) l {} acc = lexLoop rest l {} (acc ++ [⟨l.line, unesc as, rDQ, []⟩]) := by
   have h1 : lexLoop (rDQ :: (as ++ rDQ :: rest)) l {} acc
       = lexLoop (as ++ rDQ :: rest) l { val := [], tokLine := l.line, quoted := true } acc := by
     rw [lexLoop]; simp [NextSt.heredocStart, rBS, rDQ, rHash, isSpace]
@@ -203,7 +252,8 @@ def isDqW (w : List Rune) : Bool := w.head? == some rDQ
 def isBqW (w : List Rune) : Bool := w.head? == some rBQ
 
 /-- text and quote kind of the token a word gives -/
-def tokText (w : List Rune) : List Rune := if isDqW w || isBqW w then (w.drop 1).dropLast else w
+def tokText (w : List Rune) : List Rune :=
+  if isDqW w then unesc (w.drop 1).dropLast else if isBqW w then (w.drop 1).dropLast else w
 def tokQuote (w : List Rune) : Rune := if isDqW w then rDQ else if isBqW w then rBQ else 0
 
 /-- the tokens of a chunk list whose first separator starts on line `ln` (comments give none) -/
@@ -213,13 +263,13 @@ def toksOf : Nat → List Chunk → List Token
     if isCmtW c.word then toksOf (ln + c.nl) cs
     else ⟨ln + c.nl, tokText c.word, tokQuote c.word, []⟩ :: toksOf (ln + c.nl) cs
 
-theorem tokText_dq (as : List Rune) : tokText (rDQ :: (as ++ [rDQ])) = as := by
+theorem tokText_dq (as : List Rune) : tokText (rDQ :: (as ++ [rDQ])) = unesc as := by
   simp [tokText, isDqW]
 
 theorem tokQuote_dq (t : List Rune) : tokQuote (rDQ :: t) = rDQ := by simp [tokQuote, isDqW]
 
 theorem tokText_bq (as : List Rune) : tokText (rBQ :: (as ++ [rBQ])) = as := by
-  simp [tokText, isBqW]
+  simp [tokText, isBqW, isDqW, rBQ, rDQ]
 
 theorem tokQuote_bq (t : List Rune) : tokQuote (rBQ :: t) = rBQ := by simp [tokQuote, isDqW, isBqW, rDQ, rBQ]
 
@@ -788,12 +838,32 @@ theorem countNL_lexCh : ∀ (w : List Rune), w.all lexCh = true → countNL w = 
     have := (lexCh_spec h.1).2.2.2.2.2.2.2
     simp [countNL, rNL, this, countNL_lexCh w h.2]
 
-theorem countNL_dqCh : ∀ (w : List Rune), w.all dqCh = true → countNL w = 0
+theorem countNL_unesc : ∀ (w : List Rune), dqBody w = true → countNL (unesc w) = 0
   | [], _ => rfl
-  | c :: w, h => by
-    simp only [List.all_cons, Bool.and_eq_true] at h
-    have := (dqCh_spec h.1).2.2
-    simp [countNL, rNL, this, countNL_dqCh w h.2]
+  | [c], h => by
+    simp only [dqBody] at h
+    split at h
+    · simp at h
+    · rename_i hbs
+      simp only [Bool.and_eq_true, bne_iff_ne, ne_eq, beq_iff_eq] at h
+      rw [unesc_cons_ne c [] (by simpa using hbs)]
+      simp [countNL, unesc, h.1.2]
+  | c :: d :: t, h => by
+    simp only [dqBody] at h
+    split at h
+    · rename_i hbs
+      simp only [beq_iff_eq] at hbs
+      subst hbs
+      simp only [Bool.and_eq_true, bne_iff_ne, ne_eq] at h
+      have ih := countNL_unesc t h.2
+      by_cases hd : d = rDQ
+      · subst hd; simp [unesc, countNL, countNL_append, ih, rDQ, rNL]
+      · have h10 : d ≠ 10 := by simpa [rNL] using h.1
+        simp [unesc, countNL, ih, hd, h10, rBS, rNL]
+    · rename_i hbs
+      simp only [Bool.and_eq_true, bne_iff_ne, ne_eq, beq_iff_eq] at h
+      rw [unesc_cons_ne c (d :: t) (by simpa using hbs)]
+      simp [countNL, h.1.2, countNL_unesc (d :: t) h.2]
 
 theorem countNL_bqCh : ∀ (w : List Rune), w.all bqCh = true → countNL w = 0
   | [], _ => rfl
@@ -828,7 +898,7 @@ theorem lexGood_word {first ac : Bool} {c : Chunk} {cs : List Chunk} (hg : lexGo
       obtain ⟨as, hwas, hall⟩ := dqTail_spec t hw
       subst hwas
       rw [tokText_dq, tokQuote_dq]
-      simp [Token.numLineBreaks, countNL_dqCh _ hall, rLT, rDQ]
+      simp [Token.numLineBreaks, countNL_unesc _ hall, rLT, rDQ]
     · have hnq : (h == rDQ) = false := by simp [hq]
       by_cases hbq : h = rBQ
       · subst hbq
